@@ -734,7 +734,35 @@ fn fully_qualified_type_ref(type_ref: &Type) -> Result<String, std::fmt::Error> 
 }
 
 fn sa_type_to_syn_type(type_ref: &Type) -> anyhow::Result<syn::Type> {
-    Ok(syn::parse_str(&fully_qualified_type_ref(type_ref)?)?)
+    let written = fully_qualified_type_ref(type_ref)?;
+    // syn recurses once per level of the written type, whatever the levels are made of:
+    // pointers, arrays, the `<` of generic-looking names, which can also come from the names
+    // of files and directories. Limits on each of them separately do not bound their sum.
+    anyhow::ensure!(
+        written_type_nesting(&written) <= MAX_WRITTEN_TYPE_NESTING,
+        "the type `{written}` is nested more than {MAX_WRITTEN_TYPE_NESTING} levels deep"
+    );
+    Ok(syn::parse_str(&written)?)
+}
+
+const MAX_WRITTEN_TYPE_NESTING: usize = 32;
+
+/// An upper bound for how deep the parser has to descend into `written`: open brackets,
+/// plus the pointers and references seen so far (each applies to all that follows it).
+fn written_type_nesting(written: &str) -> usize {
+    let mut depth = 0usize;
+    let mut deepest = 0usize;
+    for c in written.chars() {
+        match c {
+            '<' | '[' | '(' | '*' | '&' => {
+                depth += 1;
+                deepest = deepest.max(depth);
+            }
+            '>' | ']' | ')' => depth = depth.saturating_sub(1),
+            _ => {}
+        }
+    }
+    deepest
 }
 
 fn visibility_to_tokens(visibility: Visibility) -> proc_macro2::TokenStream {
